@@ -273,9 +273,11 @@ func (o *OAuth2) End(w http.ResponseWriter, r *http.Request) error {
 			// Guard against Open Redirect: this value came in on the query
 			// string of the start request. Only follow targets on this site
 			// (path-absolute; browsers read "//host" and "/\\host" as a host,
-			// also with tabs or newlines in between).
+			// also with tabs or newlines in between; no backslash anywhere,
+			// because the redirect cleans the path and "/a/../\\host" would
+			// become "/\\host").
 			if strings.HasPrefix(v, "/") && !strings.HasPrefix(v, "//") &&
-				!strings.HasPrefix(v, "/\\") && !strings.ContainsAny(v, "\t\n\r") {
+				!strings.ContainsAny(v, "\\\t\n\r") {
 				redirect = v
 			}
 		default:
